@@ -2,6 +2,7 @@ SPECIFICATION Spec
 CONSTANTS
     Orders <- S_Orders
     Names <- S_Names
+    EventNames <- S_EventNames
     ReqShapes <- S_ReqShapes
     InvChoices <- S_InvChoices
     CfgChoices <- S_CfgChoices
